@@ -501,12 +501,361 @@ fn make_round_kernel(rng: &mut Rng, which: usize, i: usize, grid: &[f64]) -> Res
     }
 }
 
+// ---------------------------------------------------------------------------------------------
+// degenerate and structured point sets
+//
+// Random clouds never produce a point set whose points all coincide (with each other, with the origin),
+// nor two sets that are regular grids with a bit-identical step. Both are what a user passes first
+// (`Vector::zeros(n)`, a single point, `arange(0, 10, 1)` against its midpoints), and both are where a
+// matrix form that normalises its inputs (division by a range / a largest magnitude) or that recognises
+// structure (Toeplitz / Hankel / low-rank fast paths) leaves the general code. The oracle is unchanged:
+// the scalar form entry by entry within the cancellation bound of the expansion, plus the output
+// variance wherever x_i = y_j.
+
+const DEGENERATE: [&str; 9] = ["all-zero", "all-neg-zero", "mixed-signed-zero", "constant", "two-constants", "single-point", "duplicates", "first-constant", "second-constant"];
+const GRIDS: [&str; 11] = ["self", "shift-multiple", "shift-fraction", "shift-free", "other-length", "other-step", "reversed", "descending-shifted", "geometric", "integer-lattice", "lattice-subset"];
+/// operand forms of the two families: the six of `FORMS` and a genuinely 2-D Matrix, owned and borrowed
+const FORMS8: [&str; 8] = ["Vector", "&Vector", "Matrix(n×1)", "&Matrix(n×1)", "Matrix(1×n)", "&Matrix(1×n)", "Matrix(r×c)", "&Matrix(r×c)"];
+
+/// (r, c) with r·c = n and r as close to sqrt(n) as possible (1×n for a prime).
+fn near_square(n: usize) -> (usize, usize) {
+    let mut r = (n as f64).sqrt() as usize;
+    while r > 1 && n % r != 0 {
+        r -= 1;
+    }
+    (r.max(1), n / r.max(1))
+}
+
+fn call_form(k: &Ker, x: &[f64], y: &[f64], form: usize) -> Matrix {
+    if form < 6 {
+        k.matrix(x, y, form)
+    } else {
+        k.matrix_shaped(x, near_square(x.len()), y, near_square(y.len()), form == 6)
+    }
+}
+
+/// "equals the output variance at zero distance", matrix form: every entry with x_i = y_j (±0 are the
+/// same point) against the variance, within the bound that the entry check grants the expansion.
+fn judge_zero_distance(rep: &mut Report, k: &Ker, regime: &str, kind: &str, x: &[f64], y: &[f64], r: &Result<Matrix, String>) {
+    let m = match r {
+        Ok(m) if m.data.len() == x.len() * y.len() => m,
+        _ => return, // panic / shape: reported by judge_matrix
+    };
+    let var = k.var();
+    let mut bad = None;
+    let mut any = false;
+    'o: for (i, &a) in x.iter().enumerate() {
+        for (j, &b) in y.iter().enumerate() {
+            if a == b {
+                any = true;
+                let km = m.data[i * y.len() + j];
+                if !((km - var).abs() <= k.cancellation_bound(a, b, var, km)) {
+                    bad = Some((i, j));
+                    break 'o;
+                }
+            }
+        }
+    }
+    if any {
+        rep.seen(&format!("cover:{}:matrix-variance-at-zero", k.name()), 1);
+        rep.check("C20.matrix.variance_at_zero", regime, bad.is_none(), || {
+            let (i, j) = bad.unwrap();
+            json!({"kernel": k.params(), "argument_kind": kind, "x": jf(x), "y": jf(y), "observed": {"i": i, "j": j, "x_i": jnum(x[i]), "y_j": jnum(y[j]), "matrix_form": jnum(m.data[i * y.len() + j]), "variance": var}})
+        });
+    }
+}
+
+/// A constant at one of the magnitudes a coordinate takes inside ±1e3 (down to the subnormals, whose
+/// squares underflow; up to the end of the range).
+fn constant_value(rng: &mut Rng, l: f64) -> f64 {
+    let mag = match rng.usize(0, 9) {
+        0 => 5e-324,
+        1 => rng.log_range(1e-300, 1e-160),
+        2 => rng.log_range(1e-160, 1e-8),
+        3 => rng.log_range(1e-8, 1e-1),
+        4 => 1.0,
+        5 => 1e3,
+        6 => rng.usize(1, 999) as f64,
+        7 => l * rng.log_range(1e-2, 1e2),
+        _ => rng.log_range(0.1, 1e3),
+    }
+    .min(1e3);
+    if rng.bool() {
+        mag
+    } else {
+        -mag
+    }
+}
+
+fn degenerate_checks(rep: &mut Report, k: &Ker, rng: &mut Rng, class: &str, form: usize, cap: usize) {
+    let l = k.len_scale();
+    let size = |rng: &mut Rng| match rng.usize(0, 4) {
+        0 => 1,
+        1 => 2,
+        2 => rng.usize(8, 16.min(cap).max(8)).min(cap),
+        _ => rng.usize(1, cap),
+    };
+    let (mut nx, mut ny) = (size(rng), size(rng));
+    if rng.chance(0.4) {
+        ny = nx;
+    }
+    // a non-constant companion set at distances comparable with the length scale
+    let cloud = |rng: &mut Rng, c: f64, n: usize| -> Vec<f64> { (0..n).map(|_| (c + l.min(50.0) * 2.0 * rng.normal()).clamp(-1e3, 1e3)).collect() };
+    let (x, y): (Vec<f64>, Vec<f64>) = match class {
+        "all-zero" => (vec![0.0; nx], vec![0.0; ny]),
+        "all-neg-zero" => (vec![-0.0; nx], vec![-0.0; ny]),
+        "mixed-signed-zero" => {
+            let z = |rng: &mut Rng, n: usize| (0..n).map(|_| if rng.bool() { 0.0 } else { -0.0 }).collect::<Vec<f64>>();
+            (z(rng, nx), z(rng, ny))
+        }
+        "constant" => {
+            let c = constant_value(rng, l);
+            (vec![c; nx], vec![c; ny])
+        }
+        "two-constants" => {
+            let c = constant_value(rng, l);
+            let d = (c + l * rng.log_range(0.05, 5.0) * if rng.bool() { 1.0 } else { -1.0 }).clamp(-1e3, 1e3);
+            let d = if rng.chance(0.2) { 0.0 } else { d };
+            (vec![c; nx], vec![d; ny])
+        }
+        "single-point" => {
+            let a = if rng.chance(0.3) { 0.0 } else { constant_value(rng, l) };
+            match rng.usize(0, 3) {
+                0 => (vec![a], vec![a]),
+                1 => (vec![a], vec![(a + l * rng.log_range(0.05, 5.0)).clamp(-1e3, 1e3)]),
+                2 => {
+                    ny = ny.max(2);
+                    (vec![a], cloud(rng, a, ny))
+                }
+                _ => {
+                    nx = nx.max(2);
+                    (cloud(rng, a, nx), vec![a])
+                }
+            }
+        }
+        "duplicates" => {
+            let c = if rng.chance(0.3) { 0.0 } else { constant_value(rng, l) };
+            let pool: Vec<f64> = (0..rng.usize(1, 3)).map(|q| if q == 0 { c } else { (c + l.min(50.0) * 2.0 * rng.normal()).clamp(-1e3, 1e3) }).collect();
+            nx = nx.max(2);
+            let draw = |rng: &mut Rng, n: usize| (0..n).map(|_| *rng.choose(&pool)).collect::<Vec<f64>>();
+            let x = draw(rng, nx);
+            let y = if nx == ny && rng.bool() { x.clone() } else { draw(rng, ny) };
+            (x, y)
+        }
+        "first-constant" | "second-constant" => {
+            let c = if rng.chance(0.4) { if rng.bool() { 0.0 } else { -0.0 } } else { constant_value(rng, l) };
+            let other = ny.max(2);
+            let mut o = cloud(rng, c, other);
+            if rng.chance(0.3) {
+                o[0] = c; // the constant occurs in the other set: one column / row at zero distance
+            }
+            if class == "first-constant" {
+                (vec![c; nx], o)
+            } else {
+                (o, vec![c; nx])
+            }
+        }
+        _ => unreachable!(),
+    };
+    let regime = format!("{}:{}:degenerate:{}", k.name(), FORMS8[form].split('(').next().unwrap(), class);
+    rep.case(&regime);
+    rep.seen(&format!("cover:{}:degenerate:{}", k.name(), class), 1);
+    rep.seen(&format!("cover:{}:{}:degenerate", k.name(), FORMS8[form]), 1);
+    let same = x.len() == y.len() && x.iter().zip(&y).all(|(a, b)| a.to_bits() == b.to_bits());
+    let r = guard(|| call_form(k, &x, &y, form));
+    judge_zero_distance(rep, k, &regime, FORMS8[form], &x, &y, &r);
+    judge_matrix(rep, k, &regime, json!(FORMS8[form]), &x, &y, same, r);
+}
+
+/// A step m·2^e (m in 4..=7, i.e. three significant bits) in [target/4, target]: all of its small
+/// multiples are exact. Returns (step, 2^e).
+fn dyadic_below(target: f64, rng: &mut Rng) -> (f64, f64) {
+    let e = target.log2().floor() as i32;
+    let unit = 2f64.powi(e - 3);
+    (unit * rng.usize(4, 7) as f64, unit)
+}
+
+/// Two structured point sets of class `class`. Grids are built as start + i·h with one `h` for both
+/// sets; the "exact" flavour has start and h on a common dyadic lattice (every point, difference and the
+/// recovered step are exact), the "decimal" flavour uses the values a user types (0.1, 0.25, 2.5, ...).
+fn grid_pair(rng: &mut Rng, class: &str, l: f64, cap: usize) -> (Vec<f64>, Vec<f64>, bool) {
+    let n = match rng.usize(0, 5) {
+        // powers of two and their neighbours (unrolled loops, size-gated fast paths), small sets, anything
+        0 => *rng.choose(&[4usize, 8, 16, 32]),
+        1 => rng.usize(2, 7).min(cap),
+        2 => *rng.choose(&[5usize, 9, 10, 15, 17, 31, 33, 48, 60]),
+        _ => rng.usize(8, 60),
+    }
+    .min(cap)
+    .max(2);
+    let exact = rng.chance(0.6);
+    // the grid spans 0.3..10 length scales
+    let span = (l * rng.log_range(0.3, 10.0)).min(250.0);
+    let (h, unit) = if exact {
+        dyadic_below(span / n as f64, rng)
+    } else {
+        let d = 10f64.powf((span / n as f64).log10().floor()) / 10.0;
+        let m = *rng.choose(&[1.0, 2.0, 2.5, 3.0, 5.0, 7.0]);
+        (m * d, d / 10.0)
+    };
+    // start on the lattice of `unit`, the whole family inside ±1e3
+    let room = (900.0 - 3.0 * n as f64 * h).max(0.0);
+    let start = if rng.chance(0.2) { 0.0 } else { (rng.range(-room, room) / unit).round() * unit };
+    let grid = |s: f64, step: f64, len: usize| -> Vec<f64> { (0..len).map(|i| s + i as f64 * step).collect() };
+    let x = grid(start, h, n);
+    let rev = |v: &[f64]| v.iter().rev().copied().collect::<Vec<f64>>();
+    let q = rng.usize(0, 3);
+    let sign = if rng.bool() { 1.0 } else { -1.0 };
+    let (x, y, same) = match class {
+        "self" => (x.clone(), x, true),
+        "shift-multiple" => {
+            let kk = *rng.choose(&[1usize, 1, 2, 3, n / 2, n, n + 1]);
+            let y = grid(start + sign * kk.max(1) as f64 * h, h, n);
+            (x, y, false)
+        }
+        "shift-fraction" => {
+            let f = if exact { *rng.choose(&[0.5, 0.25, 0.75, 0.125, 1.5, 2.5]) } else { *rng.choose(&[0.5, 1.0 / 3.0, 0.1, 0.25, 1.5, 2.0 / 3.0]) };
+            let y = grid(start + sign * f * h, h, n);
+            (x, y, false)
+        }
+        "shift-free" => {
+            let d = sign * (l * rng.log_range(0.01, 10.0)).min(100.0);
+            let d = if exact { (d / (unit / 8.0)).round() * (unit / 8.0) } else { d };
+            let y = grid(start + d, h, n);
+            (x, y, false)
+        }
+        "other-length" => {
+            let ny = loop {
+                let m = rng.usize(1, cap.min(3 * n)); // 3·n·h is the room every class has
+                if m != n {
+                    break m;
+                }
+            };
+            let y = grid(start + if q == 0 { 0.0 } else { sign * h * 0.5 }, h, ny);
+            if rng.bool() {
+                (x, y, false)
+            } else {
+                (y, x, false)
+            }
+        }
+        "other-step" => {
+            let f = *rng.choose(&[2.0, 0.5, 1.25, 0.75, 3.0]);
+            let y = grid(start + if q == 0 { 0.0 } else { sign * h * 0.5 }, f * h, n);
+            (x, y, false)
+        }
+        "reversed" => {
+            let shifted = grid(start + sign * h * *rng.choose(&[0.0, 0.5, 1.0, 2.0]), h, n);
+            match q {
+                0 => (x.clone(), rev(&x), false),
+                1 => (rev(&x), x, false),
+                2 => (x, rev(&shifted), false),
+                _ => (rev(&shifted), x, false),
+            }
+        }
+        "descending-shifted" => {
+            // both descending, the same (negative) step, different start points
+            let shifted = grid(start + sign * h * *rng.choose(&[0.5, 1.0, 0.25, 3.0]), h, n);
+            (rev(&x), rev(&shifted), false)
+        }
+        "geometric" => {
+            // a·r^i, r = 2^(1/m) or 2 or 10^(1/m): the ratio, not the difference, is constant
+            let r = *rng.choose(&[2.0, 2f64.sqrt(), 1.5, 1.1, 10f64.powf(0.25), 1.25]);
+            let top = (l * rng.log_range(1.0, 30.0)).min(900.0);
+            let a = top / r.powi(n as i32 - 1);
+            let g = |a: f64| -> Vec<f64> { (0..n).map(|i| (a * r.powi(i as i32)).clamp(-1e3, 1e3)).collect() };
+            let x = g(a);
+            match q {
+                0 => (x.clone(), x, true),
+                1 => (x, g(a * r), false),
+                2 => (x, g(a * 1.5), false),
+                _ => (x.clone(), x.iter().map(|v| -v).collect(), false),
+            }
+        }
+        "integer-lattice" => {
+            let step = *rng.choose(&[1.0, 1.0, 2.0, 3.0, 5.0]);
+            let s = rng.int(-400, 400) as f64;
+            let x = grid(if rng.chance(0.3) { 0.0 } else { s }, step, n);
+            let off = *rng.choose(&[0.0, 1.0, 2.0, -1.0, 0.5, -0.5, 7.0]);
+            match q {
+                0 => (x.clone(), x, true),
+                _ => {
+                    let y = grid(x[0] + off, step, n);
+                    let same = off == 0.0;
+                    (x, y, same)
+                }
+            }
+        }
+        "lattice-subset" => {
+            // integer points without a common step: a sorted random subset, and a permutation of a lattice
+            let s = rng.int(-400, 400);
+            let mut pts: Vec<f64> = Vec::new();
+            let mut v = s;
+            for _ in 0..n {
+                v += rng.int(1, 3);
+                pts.push(v as f64);
+            }
+            let mut perm = grid(s as f64, 1.0, n);
+            rng.shuffle(&mut perm);
+            match q {
+                0 => (pts.clone(), pts, true),
+                1 => (pts, perm, false),
+                2 => (perm.clone(), perm, true),
+                _ => (grid(s as f64, 1.0, n), pts, false),
+            }
+        }
+        _ => unreachable!(),
+    };
+    (x, y, same)
+}
+
+fn grid_checks(rep: &mut Report, rng: &mut Rng, which: usize, class: &str, form: usize, cap: usize) {
+    // integer lattices have steps >= 1: a length scale of at least a third of a step keeps entries informative
+    let lattice = class == "integer-lattice" || class == "lattice-subset";
+    let mut k = None;
+    for _ in 0..16 {
+        match make_kernel(rng, which) {
+            Ok(c) if !lattice || c.len_scale() >= 0.3 => {
+                k = Some(c);
+                break;
+            }
+            Ok(_) => {}
+            Err(msg) => {
+                rep.check("C20.ctor.accepts_valid", if which == 0 { "rbf" } else { "rq" }, false, || json!({"panic": msg}));
+                return;
+            }
+        }
+    }
+    let k = match k {
+        Some(k) => k,
+        None => return,
+    };
+    let (x, y, same) = grid_pair(rng, class, k.len_scale(), cap);
+    if !x.iter().chain(&y).all(|v| v.abs() <= 1e3) {
+        rep.note_add("grid.cases_outside_1e3_skipped", 1.0); // the quantifier ends at ±1e3
+        return;
+    }
+    let regime = format!("{}:{}:grid:{}", k.name(), FORMS8[form].split('(').next().unwrap(), class);
+    rep.case(&regime);
+    rep.seen(&format!("cover:{}:grid:{}", k.name(), class), 1);
+    rep.seen(&format!("cover:{}:{}:grid", k.name(), FORMS8[form]), 1);
+    if x.len() >= 16 && y.len() >= 16 {
+        rep.seen(&format!("cover:{}:grid:{}:len>=16", k.name(), class), 1);
+    }
+    if x.iter().any(|&a| y.iter().any(|&b| a != b && k.informative(a, b))) {
+        rep.seen(&format!("cover:{}:grid:{}:informative", k.name(), class), 1);
+    }
+    let r = guard(|| call_form(&k, &x, &y, form));
+    judge_zero_distance(rep, &k, &regime, FORMS8[form], &x, &y, &r);
+    judge_matrix(rep, &k, &regime, json!(FORMS8[form]), &x, &y, same, r);
+}
+
 pub fn run(cfg: &Cfg, rep: &mut Report) {
-    rep.rule = "per case one kernel (RBF / RQ alternating; variance, length scale, mixture parameter log-uniform in (1e-2,1e2)): 32 scalar pairs in ±1e3 at distances 1e-3..1e2 length scales, one 64-point distance ladder, one Gram matrix of the scalar form on 1..60 points spread over 0.03..30 length scales (grid / uniform / normal clouds, repeated points now and then), and one matrix-form call per argument kind (Vector, &Vector, Matrix n×1 and 1×n, owned and borrowed) on two point sets of independent sizes 1..60. Matrix-shape family: every pair of operand shapes r×c, r, c in 1..6 (1296 pairs: columns, rows, 1×1 and genuinely 2-D arrays holding r·c points), owned and borrowed, both kernels. round-parameter family: the mixture parameter (RQ) / length scale (RBF) walks a grid of round values (every j/2 up to 12, half-integers and integers up to 99.5, quarters, thirds, decimals), variance and the other parameter round one time in two; scalar pairs, ladder and one matrix-form call per argument kind on 1..12 points. non-trivial = an entry strictly between 0.1% and 99.9% of the variance; distinct by parameters and points".into();
+    rep.rule = "per case one kernel (RBF / RQ alternating; variance, length scale, mixture parameter log-uniform in (1e-2,1e2)): 32 scalar pairs in ±1e3 at distances 1e-3..1e2 length scales, one 64-point distance ladder, one Gram matrix of the scalar form on 1..60 points spread over 0.03..30 length scales (grid / uniform / normal clouds, repeated points now and then), and one matrix-form call per argument kind (Vector, &Vector, Matrix n×1 and 1×n, owned and borrowed) on two point sets of independent sizes 1..60. Matrix-shape family: every pair of operand shapes r×c, r, c in 1..6 (1296 pairs: columns, rows, 1×1 and genuinely 2-D arrays holding r·c points), owned and borrowed, both kernels. round-parameter family: the mixture parameter (RQ) / length scale (RBF) walks a grid of round values (every j/2 up to 12, half-integers and integers up to 99.5, quarters, thirds, decimals), variance and the other parameter round one time in two; scalar pairs, ladder and one matrix-form call per argument kind on 1..12 points. Degenerate point sets (per kernel x class x operand form, 2 (12) rounds): all points +0 / -0 / mixed signed zeros, one constant (5e-324 .. 1e3, both signs), two different constants, single points (against itself, another point, a cloud), sets drawn from a pool of <= 3 values, one set constant (also 0) and the other a cloud; sizes 1, 2, 8..16, 1..60; matrix form against scalar form entry by entry and against the variance wherever x_i = y_j. Structured point sets (per kernel x class x operand form, 3 (24) rounds; 2..60 points: powers of two and their neighbours, 2..7, 8..60): grids start + i*h with one h for both sets, on a common dyadic lattice (all arithmetic exact) or with typed decimal steps, against themselves, shifted by multiples / fractions of the step / freely, other length, other step, reversed, both descending with an offset; geometric grids; integer lattices with integer / half-integer offsets; irregular integer subsets and permuted lattices; operand forms Vector, &Vector, Matrix n x 1, 1 x n, r x c, owned and borrowed. non-trivial = an entry strictly between 0.1% and 99.9% of the variance; distinct by parameters and points".into();
     rep.assume("'positive' is asserted as k >= 0, and k > 0 wherever the exact value exceeds exp(-700): beyond that a correct kernel underflows to zero");
     rep.assume("monotone / bounded carry a 4ε relative slack (powf is accurate but not proven monotone)");
     rep.assume("a Matrix argument of shape r×c is the point set of its r·c entries in storage (row-major) order: a single column, a single row or a genuinely 2-D array; the matrix form must have r·c rows (columns) for it and equal the scalar form on the flattened points");
     rep.assume("matrix-form entries may differ from the scalar form by the cancellation error of x²+y²−2xy: relative expm1(32ε(x²+y²)/(2ℓ²)) + 16ε(2+t) (t = exponent for RBF, mixture parameter for RQ)");
+    rep.assume("matrix form at zero distance (x_i = y_j, +0 = -0): the variance within the same bound as any other entry (the expansion x²+y²−2xy is exactly 0 there in IEEE arithmetic, but the property does not promise a bit pattern for the matrix form)");
     let n_cases = cfg.pick(600, 15_000, 10);
     par_cases(cfg, rep, 1, n_cases, |i, rng, rep| {
         let k = match make_kernel(rng, i % 2) {
@@ -595,6 +944,45 @@ pub fn run(cfg: &Cfg, rep: &mut Report) {
             matrix_checks(rep, &k, rng, nx, ny, form, ":round-params");
         }
     });
+    // ---- degenerate point sets
+    let cap = if cfg.miri() { 4 } else { 60 };
+    let n_deg = cfg.pick(2 * DEGENERATE.len() * 8 * 2, 2 * DEGENERATE.len() * 8 * 12, DEGENERATE.len());
+    par_cases(cfg, rep, 4, n_deg, |i, rng, rep| {
+        // (kernel, class, form) enumerated; the reduced workloads walk the diagonal
+        let (which, class, form) = if cfg.lite { (i % 2, DEGENERATE[i % DEGENERATE.len()], i % 8) } else { (i % 2, DEGENERATE[(i / 2) % DEGENERATE.len()], (i / (2 * DEGENERATE.len())) % 8) };
+        match make_kernel(rng, which) {
+            Ok(k) => degenerate_checks(rep, &k, rng, class, form, cap),
+            Err(msg) => {
+                rep.check("C20.ctor.accepts_valid", if which == 0 { "rbf" } else { "rq" }, false, || json!({"panic": msg}));
+            }
+        }
+    });
+    // ---- structured point sets
+    let cap = if cfg.miri() { 9 } else { 60 };
+    let n_grid = cfg.pick(2 * GRIDS.len() * 8 * 3, 2 * GRIDS.len() * 8 * 24, GRIDS.len());
+    par_cases(cfg, rep, 5, n_grid, |i, rng, rep| {
+        let (which, class, form) = if cfg.lite { (i % 2, GRIDS[i % GRIDS.len()], i % 8) } else { (i % 2, GRIDS[(i / 2) % GRIDS.len()], (i / (2 * GRIDS.len())) % 8) };
+        grid_checks(rep, rng, which, class, form, cap);
+    });
+    for name in ["rbf", "rq"] {
+        for c in DEGENERATE {
+            rep.require(&format!("cover:{}:degenerate:{}", name, c), 1);
+        }
+        for c in GRIDS {
+            rep.require(&format!("cover:{}:grid:{}", name, c), 1);
+            if !cfg.lite {
+                rep.require(&format!("cover:{}:grid:{}:len>=16", name, c), 1);
+                rep.require(&format!("cover:{}:grid:{}:informative", name, c), 1);
+            }
+        }
+        rep.require(&format!("cover:{}:matrix-variance-at-zero", name), 1);
+        if !cfg.lite {
+            for f in FORMS8 {
+                rep.require(&format!("cover:{}:{}:degenerate", name, f), 1);
+                rep.require(&format!("cover:{}:{}:grid", name, f), 1);
+            }
+        }
+    }
     for name in ["rbf", "rq"] {
         rep.require(name, 1);
         rep.require(&format!("cover:{}:f64", name), 1);
